@@ -596,7 +596,8 @@ func (vc *VC) indexAddr(f *Frame, n *Node, in *ssa.IndexAddr) *SV {
 				app("bvslt", vc.scaleReg(x.C[2], es), bvLit(64, 1<<50)))) + ")")
 		}
 		idx := bvAdd(x.C[1], vc.scaleReg(i, es))
-		return &SV{T: in.Type(), C: []string{x.C[0], vc.defS(SBV64, idx, in.Name())}, NonNil: true}
+		return &SV{T: in.Type(), C: []string{x.C[0], vc.defS(SBV64, idx, in.Name())}, NonNil: true,
+			Ext: bvAdd(x.C[1], vc.scaleReg(x.C[3], es))}
 	case *types.Pointer:
 		arr := u.Elem().Underlying().(*types.Array)
 		vc.nilCheck(f, n, in, x)
@@ -934,10 +935,36 @@ func (vc *VC) convert(f *Frame, n *Node, in *ssa.Convert) *SV {
 		vc.note("string conversion " + from.String() + " -> " + to.String() + " treated as an arbitrary string")
 		return vc.freshSV(to, in.Name(), n.St)
 	case isPointerLike(from) && isPointerLike(to):
-		return &SV{T: to, C: x.C, NonNil: x.NonNil}
+		return &SV{T: to, C: x.C, NonNil: x.NonNil, Ext: x.Ext}
 	case isPointerLike(from) && isInteger(to):
-		// uintptr(unsafe.Pointer(p)): address model addr(ref)+idx
-		return &SV{T: to, C: []string{vc.defS(SBV64, app("bvadd", app(vc.uf("addr", SBV64, SRef), x.C[0]), x.C[1]), in.Name())}}
+		// uintptr(unsafe.Pointer(p)): address model. Every object r occupies the addresses
+		// [addr(r), addr(r)+osize(r)), one address unit per cell; the extents of distinct objects are
+		// disjoint and do not wrap; a pointer obtained by indexing a slice lies inside its object
+		// together with the whole capacity of that slice.
+		ab, os := vc.uf("addr", SBV64, SRef), vc.uf("osize", SBV64, SRef)
+		a, sz := app(ab, x.C[0]), app(os, x.C[0])
+		facts := []string{app("bvult", sz, bvLit(64, 1<<41)), app("bvult", a, bvLit(64, 1<<46)), app("bvuge", a, bvLit(64, 4096))}
+		if x.Ext != "" {
+			facts = append(facts, app("bvsle", bvLit(64, 0), x.C[1]), app("bvslt", x.C[1], sz), app("bvsle", x.Ext, sz))
+		}
+		for _, r := range vc.addrRefs {
+			if r == x.C[0] {
+				continue
+			}
+			facts = append(facts, implies(not(eq(r, x.C[0])), or(app("bvule", app("bvadd", app(ab, r), app(os, r)), a), app("bvule", app("bvadd", a, sz), app(ab, r)))))
+		}
+		seen := false
+		for _, r := range vc.addrRefs {
+			if r == x.C[0] {
+				seen = true
+			}
+		}
+		if !seen {
+			vc.addrRefs = append(vc.addrRefs, x.C[0])
+		}
+		vc.assume(implies(n.Reach, and(facts...)))
+		vc.note("address model: uintptr(pointer) = addr(object) + cell index; extents of distinct objects are disjoint (used only where the code compares addresses)")
+		return &SV{T: to, C: []string{vc.defS(SBV64, app("bvadd", a, x.C[1]), in.Name())}}
 	}
 	panic(unsupported(fmt.Sprintf("conversion %s -> %s", from, to)))
 }
